@@ -55,6 +55,7 @@ def run(ctx):
     items += list(popgen.shape(rng, 50 if q else 400))
     items += list(popgen.occupancy(rng, 70 if q else 500))
     items += list(popgen.cascade(rng, 20 if q else 150))
+    items += list(popgen.affine(rng, 40 if q else 300))        # index math: follow() directives, projections
     # several partitioned ranks per tensor (shape beneath / above occupancy stacks with a leader per level, flatten, renamed
     # ranks): the sets of partitionings then have several elements, whose iteration order matters
     import specgen_wide
@@ -82,8 +83,10 @@ def run(ctx):
             continue
         if not all(o["twice_equal"] for o in outs):
             bad += 1
-            ctx.violation({"kind": "recompile-differs"}, "compiling the same parsed specification twice in one process gives different text",
-                          {"yaml": it["yaml"], "seeds": [s for s, o in zip(seeds, outs) if not o["twice_equal"]]})
+            errs = [o.get("second_error") for o in outs if o.get("second_error")]
+            ctx.violation({"kind": "recompile-differs"}, "compiling the same parsed specification twice in one process gives different text"
+                          + (" (the second compilation fails: %s)" % errs[0] if errs else ""),
+                          {"yaml": it["yaml"], "seeds": [s for s, o in zip(seeds, outs) if not o["twice_equal"]], "second_errors": errs[:3]})
             continue
         texts = []
         for o in outs:
@@ -107,8 +110,25 @@ def run(ctx):
             cases.append(c)
             da_items.append((it["kind"], spec, syms, t, {"mapping": it.get("mapping")}))
     execlib.evaluate(cases, "c08")
+    # index-math specifications carry C04's known defects under EVERY order: for them the property is judged by comparing the
+    # variants with each other (identical outcome), not with the oracle
+    by_spec = {}
+    for c in cases:
+        by_spec.setdefault(c.meta["spec_index"], []).append(c)
+    relative = set()
+    for i, cs in by_spec.items():
+        if cs[0].meta["kind"].startswith("affine"):
+            relative.add(i)
+            outs_ = set(getattr(c, "raw", str(c.result)) for c in cs)
+            if len(outs_) > 1:
+                bad += 1
+                ctx.violation({"kind": "variants-differ", "nvariants": True},
+                              "texts emitted for one index-math specification under different iteration orders behave differently: %s" % sorted(outs_)[:3],
+                              cs[0].replay())
     for c in cases:
         r = c.result
+        if c.meta["spec_index"] in relative:
+            continue
         if r["status"] == "RAN" and r["out"] == "OK" and r["inp"] == "OK":
             continue
         bad += 1
@@ -116,8 +136,19 @@ def run(ctx):
         ctx.violation(key, "a text emitted under some hash seed computes %s (variant %d of %d)" % (
             getattr(c, "raw", r)[:200] if isinstance(getattr(c, "raw", ""), str) else r, c.meta["variant"], c.meta["nvariants"]), c.replay())
     da = c06.analyse(ctx, da_items, "c08da")
+    da_by_yaml = {}
+    for (label, spec, syms, text, meta), r in da:
+        if label.startswith("affine"):
+            da_by_yaml.setdefault(spec.yaml, set()).add(r)
     for (label, spec, syms, text, meta), r in da:
         if r == "OK":
+            continue
+        if label.startswith("affine"):
+            if len(da_by_yaml[spec.yaml]) > 1:
+                bad += 1
+                ctx.violation({"kind": "variants-differ-closedness"}, "closedness of the texts of one index-math specification depends on the iteration order: %s"
+                              % sorted(da_by_yaml[spec.yaml]), {"yaml": spec.yaml, "text": text, "result": r})
+                da_by_yaml[spec.yaml] = set([r])
             continue
         bad += 1
         key = {"kind": "variant-not-closed"}
